@@ -10,6 +10,7 @@ import (
 	"errors"
 	"fmt"
 	"net"
+	"runtime"
 	"sort"
 	"sync"
 	"testing"
@@ -114,11 +115,18 @@ func c16Run(t *testing.T, tr *kit.Trace, lazy bool, ops []c16Op, src string) {
 		var mu sync.Mutex
 		cfgFail, srvDown := false, false
 		deadAddr := &net.UDPAddr{IP: net.ParseIP("10.0.0.99"), Port: 443}
+		var cfgGate, cfgReached chan struct{} // when set, the next configuration evaluation parks until the driver releases it
 		configFunc := func() (*client.Config, error) {
 			mu.Lock()
 			cf, sd := cfgFail, srvDown
+			gate, reached := cfgGate, cfgReached
+			cfgGate, cfgReached = nil, nil
 			mu.Unlock()
 			tr.Ev(kit.E{"ev": "Config", "ok": !cf})
+			if gate != nil {
+				close(reached)
+				<-gate
+			}
 			if cf {
 				return nil, errors.New("config unavailable")
 			}
@@ -220,6 +228,47 @@ func c16Run(t *testing.T, tr *kit.Trace, lazy bool, ops []c16Op, src string) {
 					rc.Close()
 					tr.Ev(kit.E{"ev": "CloseRet"})
 				}
+			case "closerace":
+				// A's reconnect is parked inside the configuration function (holding the client's mutex); Close() queues
+				// behind it, then call B queues behind Close(); A's reconnect then fails.  Whatever B does, it must not
+				// reconnect after Close() has returned.  (No synctest.Wait while goroutines wait for that mutex.)
+				if closed {
+					continue
+				}
+				gate, reached := make(chan struct{}), make(chan struct{})
+				mu.Lock()
+				cfgGate, cfgReached = gate, reached
+				wasFail := cfgFail
+				cfgFail = true
+				mu.Unlock()
+				var wg sync.WaitGroup
+				wg.Add(1)
+				go func() { defer wg.Done(); call(71, false) }()
+				select {
+				case <-reached:
+					yield := func() {
+						for k := 0; k < 3000; k++ {
+							runtime.Gosched()
+						}
+					}
+					wg.Add(2)
+					go func() { defer wg.Done(); rc.Close(); tr.Ev(kit.E{"ev": "CloseRet"}) }()
+					yield()
+					mu.Lock()
+					cfgFail = wasFail
+					mu.Unlock()
+					go func() { defer wg.Done(); call(72, false) }()
+					yield()
+					close(gate)
+					closed = true
+				case <-time.After(time.Second):
+					// the client was connected: no reconnect happened, nothing to race with
+					mu.Lock()
+					cfgGate, cfgReached, cfgFail = nil, nil, wasFail
+					mu.Unlock()
+				}
+				wg.Wait()
+				release()
 			case "quiesce":
 			}
 			quiesce()
@@ -270,6 +319,9 @@ func TestVerif_C16(t *testing.T) {
 		{call(1), op("kill"), par, op("close"), call(2), par},
 		{op("srv"), call(1), call(2), op("srv"), call(3), op("kill"), call(4), call(5), op("close"), call(6)},
 		{call(1), op("close"), call(2), op("kill"), call(3)},
+		{op("closerace"), call(2)},                              // lazy start: Close racing the very first connect
+		{call(1), op("kill"), call(2), op("closerace"), call(3)}, // after a loss
+		{call(1), op("kill"), call(2), op("srv"), call(3), op("srv"), op("closerace")},
 	}
 	for i, f := range fam {
 		c16Run(t, tr, i%2 == 1, f, "family")
